@@ -22,7 +22,7 @@ func init() {
 			"expiry from Walk().ExpireAt() is checked against [t0+T-|T|J/2-eps, t1+T+|T|J/2+eps] with wall-clock brackets t0/t1 around the Write; reads before/after expiry checked; " +
 			"per batch a distribution block (2000 writes each for J=1.0 and J=default) must populate both halves and both outer deciles of the jitter interval; " +
 			"distinct_nontrivial = distinct (backend, config class, ctx class, jitter class, magnitude decade) cells with a finite effective TTL",
-		Required: []string{"writes", "bounds.checked", "unlimited.checked", "read.hit.checked", "read.expired.checked", "dist.blocks"},
+		Required: []string{"trait_ttl.checked", "writes", "bounds.checked", "unlimited.checked", "read.hit.checked", "read.expired.checked", "dist.blocks"},
 		Assumptions: []string{
 			"wall clock (time.Now().UnixNano) is not stepped backwards/forwards during a run",
 			"eps = 2ns + |T|*2^-52 covers float64 rounding of the jitter product",
@@ -37,12 +37,15 @@ func randDuration(rng *rand.Rand) time.Duration {
 	case 0:
 		return time.Duration(1 + rng.Intn(3)) // 1..3ns
 	case 1:
-		return time.Duration(maxNs)
+		return time.Duration(maxNs) - time.Duration(rng.Int63n(1000))
 	}
 	e := rng.Float64() * math.Log(maxNs)
 	d := time.Duration(math.Exp(e))
 	if d < 1 {
 		d = 1
+	}
+	if d > time.Hour {
+		d += time.Duration(rng.Int63n(4096)) // long TTLs that are not exactly representable as float64
 	}
 	return d
 }
@@ -103,6 +106,30 @@ func c10Case(b *Batch, idx int) {
 		ctx, ctxClass = cache.WithTTL(bg, ctxTTL, false), "neg"
 	}
 	be := newBackend(kind, cache.Config{TimeToLive: cfgTTL, ExpirationJitter: jit})
+	// The exported Trait computes the TTL every backend applies: observe it directly (no clock bracket needed).
+	if ctxTTL != 0 || cfgTTL != cache.UnlimitedTTL {
+		T := ctxTTL
+		if T == 0 {
+			T = cfgTTL
+			if cfgTTL == 0 {
+				T = 5 * time.Minute
+			}
+		}
+		J := jit
+		if J == 0 {
+			J = 0.1
+		}
+		got := cache.NewTrait(cache.Config{TimeToLive: cfgTTL, ExpirationJitter: jit}).TTL(ctx)
+		b.R.Count("trait_ttl.checked", 1)
+		absT := math.Abs(float64(T))
+		if J < 0 {
+			if got != T {
+				b.R.Violate(b, idx, "C10:Trait:ttl-exact", fmt.Sprintf("jitter disabled: Trait.TTL = %d ns, want exactly %d ns (T=%v)", int64(got), int64(T), T), map[string]interface{}{"cfgTTL": cfgTTL.String(), "ctxTTL": ctxTTL.String()})
+			}
+		} else if d := math.Abs(float64(got - T)); d > absT*J/2+2+absT*math.Pow(2, -52) {
+			b.R.Violate(b, idx, "C10:Trait:ttl-bounds", fmt.Sprintf("Trait.TTL = %v deviates %v from T=%v, allowed %v", got, time.Duration(d), T, time.Duration(absT*J/2)), nil)
+		}
+	}
 	key := []byte(fmt.Sprintf("k%d", idx))
 	val := fmt.Sprintf("v%d", idx)
 
